@@ -13,7 +13,7 @@ pub enum Ev {
     // identifier positions (how a name becomes one quoted token is unit `ident`, C04)
     Iden(DynIden), Name(Seq<char>), TRef(TableRef), TRefIden(TableRef),
     // elements of CREATE / ALTER TABLE
-    ColDef(ColumnDef), ColTypePart(ColumnDef), ColType(ColumnType), Serial(ColumnType), ColSpec(ColumnSpec), TblIndex(IndexCreateStatement),
+    ColDef(ColumnDef), ColTypePart(ColumnDef), ColType(ColumnType), ColTypeS(Seq<ColumnSpec>, ColumnType), Serial(ColumnType), ColSpec(ColumnSpec), TblIndex(IndexCreateStatement),
     FkCreate(ForeignKeyCreateStatement, Mode), FkDrop(ForeignKeyDropStatement, Mode), FkDropNamed(DynIden), Check(SimpleExpr), Generated(SimpleExpr, bool), Expr(SimpleExpr),
     TemporaryKw(TableCreateStatement), IfNotExistsKw(TableCreateStatement), TableOpts(TableCreateStatement), TableOptsDef(TableCreateStatement), DropOpt(TableDropOpt),
     AutoIncKw, Comment(Seq<char>), EscStr(Seq<char>), Text(Seq<char>),
